@@ -24,8 +24,43 @@ def run(ctx):
                         "ops": [{"op": "connect", "hello": hx(b"c03.test")},
                                 {"op": "send", "from": hx(b"a@x.org"), "to": [hx(b"b@y.org")], "msg": hx(m)},
                                 {"op": "quit"}]})
-    res = run_scenarios(scs)
+    # several messages over ONE connection: whatever state a message leaves the encoder in must not leak into the next
+    tails = [b"", b"x", b"x\r", b"x\r\n", b"x\n", b"x\r\n.", b".", b"x\r\n.\r", b"\r\n"]
+    heads = [b".", b".\r\n", b"\n.", b"..a", b"a", b"\r\n.", b""]
+    multi = []
+    for rep in range(6 if ctx.tier == "quick" else 60):
+        seq = [ctx.rng.choice(heads) + b"mid" * ctx.rng.randint(0, 2) + ctx.rng.choice(tails) for _ in range(ctx.rng.randint(3, 8))]
+        if rep == 0:
+            seq = [h + t for t in tails for h in heads[:3]]
+        for fl in ("sync", "tokio"):
+            script = [step("none", b"220 hi\r\n"), step("line", b"250-srv\r\n250-8BITMIME\r\n250 SMTPUTF8\r\n")]
+            ops = [{"op": "connect", "hello": hx(b"c03.test")}]
+            for m in seq:
+                script += [step("line", b"250 ok\r\n"), step("line", b"250 ok\r\n"), step("line", b"354 go\r\n"), step("data", b"250 queued\r\n")]
+                ops.append({"op": "send", "from": hx(b"a@x.org"), "to": [hx(b"b@y.org")], "msg": hx(m)})
+            script.append(step("line", b"221 bye\r\n"))
+            ops.append({"op": "quit"})
+            multi.append(({"id": 100000 + len(multi), "flavor": fl, "timeout_ms": 3000, "servers": [script], "ops": ops}, seq))
+    res = run_scenarios(scs + [m[0] for m in multi])
+    mres = res[len(scs):]
+    res = res[:len(scs)]
     wires = run_model(["codec.wire\t" + hx(m) for m in msgs])
+    multi_bad = []
+    mspec, midx = [], []
+    for j, ((sc, seq), r) in enumerate(zip(multi, mres)):
+        ctx.count()
+        srv = (r.get("servers") or [None])[0]
+        if not srv or r.get("results") == "PANIC" or "error" in r:
+            multi_bad.append((j, "no server log / panic: %s" % str(r)[:200])); continue
+        Rs = events_R(srv)
+        if len(Rs) != 2 + 4 * len(seq) or Rs[-1] != b"QUIT\r\n":
+            multi_bad.append((j, "the server did not see %d transactions followed by QUIT: %d units" % (len(seq), len(Rs)))); continue
+        for i, m in enumerate(seq):
+            mspec.append("spec.server_data\t" + hx(Rs[4 + 4 * i] + b"NEXT\r\n")); midx.append((j, i))
+    for (j, i), o in zip(midx, run_model(mspec)):
+        m = multi[j][1][i]
+        if o != "some\t%s\t%s" % (hx(m + b"\r\n"), hx(b"NEXT\r\n")):
+            multi_bad.append((j, "message %d of %d on one connection (%r after %r): the receiver reconstructs %s" % (i + 1, len(multi[j][1]), m[:20], multi[j][1][i - 1][-6:] if i else b"", o[:80])))
     bad_corr, bad_oracle = [], []
     spec_lines, spec_idx = [], []
     for k, (sc, r) in enumerate(zip(scs, res)):
@@ -53,6 +88,10 @@ def run(ctx):
             bad_oracle.append((k, r, want))
     ctx.cov["correspondence"]["smtp_wire"] = {"dialogues": len(scs), "flavors": ["sync", "tokio"], "disagreements": len(bad_corr)}
     ctx.cov["oracle"]["server_data_on_tcp_octets"] = {"cases": len(spec_lines), "failures": len(bad_oracle)}
+    ctx.cov["oracle"]["several_messages_on_one_connection"] = {"sessions": len(multi), "messages": sum(len(m[1]) for m in multi), "failures": len(multi_bad)}
+    if multi_bad:
+        j, why = multi_bad[0]
+        ctx.violation({"kind": "oracle-wire-session", "flavor": multi[j][0]["flavor"], "what": why, "messages_hex": [hx(m) for m in multi[j][1]], "scenario": multi[j][0]})
     if bad_oracle:
         k, got, want = min(bad_oracle, key=lambda t: len(msgs[t[0] // 2]))
         ctx.violation({"kind": "oracle-wire", "flavor": scs[k]["flavor"], "message_hex": hx(msgs[k // 2]),
